@@ -316,6 +316,53 @@ pub fn reset_class_dec<D: Dec>(k: usize, r: usize, class: u32, k2: usize, r2: us
     let _ = d.add_r(0, &buf);
 }
 
+/// top-level API (ReedSolomonEncoder / ReedSolomonDecoder = DefaultRate over DefaultEngine): add calls
+/// with unbounded indexes, constructor with invalid arguments, reset with an invalid class. Run with
+/// `-Z restrict-vtable` (the boxed engine's drop glue otherwise costs minutes).
+pub fn rs_enc_add_calls(k: usize, r: usize) {
+    let mut e = RsEnc::mk(k, r, SB).unwrap();
+    let buf: [u8; 6] = k::any();
+    let s: [u8; 2] = k::any();
+    assert!(e.add(&s).is_ok());
+    assert_eq!(e.add(&buf[..3]), Err(Error::DifferentShardSize { shard_bytes: SB, got: 3 }));
+    let mut n = 1;
+    while n < k {
+        e.add(&s).unwrap();
+        n += 1;
+    }
+    assert_eq!(e.add(&s), Err(Error::TooManyOriginalShards { original_count: k }));
+}
+
+/// ReedSolomonDecoder: add calls with UNBOUNDED symbolic indexes and the correct length (a symbolic
+/// length through the boxed/enum-wrapped codec runs out of memory; lengths: dedicated codecs)
+pub fn rs_dec_index_calls(k: usize, r: usize) {
+    let mut d = RsDec::mk(k, r, SB).unwrap();
+    let s: [u8; 2] = k::any();
+    let (i, j, l): (usize, usize, usize) = (k::any(), k::any(), k::any());
+    let a = d.add_o(i, &s);
+    let b = d.add_o(j, &s);
+    let c = d.add_r(l, &s);
+    match a {
+        Ok(()) => assert!(i < k),
+        Err(e) => assert!(i >= k && e == Error::InvalidOriginalShardIndex { original_count: k, index: i }),
+    }
+    match b {
+        Ok(()) => assert!(j < k && !(a.is_ok() && i == j)),
+        Err(e) => {
+            if j >= k {
+                assert!(e == Error::InvalidOriginalShardIndex { original_count: k, index: j });
+            } else {
+                assert!(a.is_ok() && i == j && e == Error::DuplicateOriginalShardIndex { index: j });
+            }
+        }
+    }
+    match c {
+        Ok(()) => assert!(l < r),
+        Err(e) => assert!(l >= r && e == Error::InvalidRecoveryShardIndex { recovery_count: r, index: l }),
+    }
+    kcover!(i == usize::MAX);
+}
+
 type N = NullEngine;
 // decoder: adds only, other shapes
 h!(dec_adds_high_3_1, 20, dec_adds_only::<HighRateDecoder<N>>(3, 1));
@@ -333,3 +380,9 @@ h!(reset_invalid_high_enc, 20, reset_invalid_enc::<HighRateEncoder<N>>(2, 1));
 h!(reset_invalid_low_enc, 20, reset_invalid_enc::<LowRateEncoder<N>>(1, 2));
 h!(reset_invalid_high_dec, 20, reset_invalid_dec::<HighRateDecoder<N>>(2, 1));
 h!(reset_invalid_low_dec, 20, reset_invalid_dec::<LowRateDecoder<N>>(1, 2));
+
+h!(rs_dec_index_calls_2_1, 20, rs_dec_index_calls(2, 1));
+h!(rs_dec_index_calls_1_2, 20, rs_dec_index_calls(1, 2));
+h!(rs_enc_add_calls_2_1, 20, rs_enc_add_calls(2, 1));
+h!(rs_reset_class_dec_c9, 20, reset_class_dec::<RsDec>(2, 1, 9, 1, 2));
+h!(rs_reset_class_enc_c0, 20, reset_class_enc::<RsEnc>(2, 1, 0, 1, 2));
